@@ -24,7 +24,7 @@ func (p *Prog) EnumConsts(rel, typeName string) map[string]int64 {
 			continue
 		}
 		named, ok := c.Type().(*types.Named)
-		if !ok || named.Obj().Name() != typeName || named.Obj().Pkg() != tp {
+		if !ok || NamedTypeString(named) != rel+"."+typeName || named.Obj().Pkg() != tp {
 			continue
 		}
 		if v, ok := constant.Int64Val(c.Val()); ok {
